@@ -12,7 +12,7 @@ import time
 from vlib import c14_pass_corpus as CORP
 from vlib.common import COQ
 
-WORKERS = 3
+WORKERS = 4
 
 
 def _worker(job):
